@@ -34,11 +34,13 @@ def _process_vlandb(rule, key, diff, hw, explicit_changing, multi_chunk):
         # switchport trunk allowed vlan none
         yield (True, "%s none" % prefix, None)
         return
-    for vlan_id in ((set(old_blocks.keys()) - set(new_blocks)) & new):
+    # vlans listed in lines that do not change stay, even if another line or block that mentions them goes away
+    kept = _parse_vlancfg_actions(diff[Op.UNCHANGED])[1] | _parse_vlancfg_actions(diff[Op.AFFECTED])[1]
+    for vlan_id in ((set(old_blocks.keys()) - set(new_blocks)) & (new | kept)):
         # Удалено содержимое блока vlan, но сам влан остался
         yield (True, "%s %s" % (prefix, vlan_id), old_blocks[vlan_id])
 
-    removed = old.difference(new)
+    removed = old.difference(new) - kept
     added = new.difference(old)
     if hw.Catalyst:
         # Каталисты не перечисляют вланы в batch режиме, если они представлены как блоки
